@@ -19,7 +19,7 @@ import (
 func init() {
 	Registry["C04"] = RunC04
 	Metas["C04"] = Meta{
-		Rule:           "episode = 1..5 requests (GET/HEAD/POST, HTTP/1.0+1.1, keep-alive/close, pipelined or ping-pong) each answered by a generated handler program: status from {100,101,200,201,204,206,301,304,400,404,500,599} x headers via Set/Add/SetContentType/SetCookie x body via SetBody / SetBodyString+AppendBody / Write+WriteString / SetBodyStream(exact n | -1 | LimitedReader; piecewise, zero-length-then-data, EOF-with-data readers) / hijacked chunked writer with arbitrary write+flush patterns and trailers / no body; sizes around 4096 and MaxSmallFileSize; ImmediateHeaderFlush; write backpressure. Oracles: strict reader decodes every response to the program's status/headers/body, framing exact, bodiless statuses carry no body, next response starts where the previous ends, net/http.ReadResponse agrees, Connection header rule. Non-trivial: >= 2 responses or a stream/chunked-writer body; distinct = abstract signature (status, body mode, size bucket, method, proto).",
+		Rule:           "episode = 1..5 requests (GET/HEAD/POST, HTTP/1.0+1.1, keep-alive/close, pipelined or ping-pong) each answered by a generated handler program: status from {100,101,200,201,204,206,301,304,400,404,500,599} x headers via Set/Add/SetContentType/SetCookie x body via SetBody / SetBodyString+AppendBody / Write+WriteString / SetBodyStream(exact n | -1 | LimitedReader; piecewise, zero-length-then-data, EOF-with-data readers) / hijacked chunked writer with arbitrary write+flush patterns and trailers / no body; sizes around 4096 and MaxSmallFileSize; ImmediateHeaderFlush; write backpressure. Oracles: strict reader decodes every response to the program's status/headers/body, framing exact, bodiless statuses carry no body, next response starts where the previous ends, net/http.ReadResponse agrees, Connection header rule. Non-trivial: >= 2 responses or a stream/chunked-writer body; distinct = abstract signature (status, body mode, size bucket, method, proto). Later still: statuses 205/203, handlers that delete Transfer-Encoding after installing an unknown-length stream or use the identity length, handlers that reuse their buffer after SetBody.",
 		Real:           []string{"resp.Write/writeBodyStream", "resp.chunkedBodyWriter", "ext.WriteBodyChunked/WriteBodyFixedSize/WriteChunk/WriteTrailer", "ResponseHeader.AppendBytes", "http1.Server.Serve (Connection decision)", "standard.Conn writer"},
 		Stub:           []string{"TCP (SimConn)", "peer (scripted actor)", "transporter accept loop (stub)", "clock (synctest)"},
 		Assumptions:    []string{"header values are token-safe (hostile bytes are C05's subject, not applicable here)", "documented exclusion honoured: the hijacked chunked writer is not installed on bodiless responses", "a handler-chosen 1xx status is treated as the final response of its request", "with the hijacked chunked writer the header block leaves before the server decides about Connection: the Connection-header oracle is not applied to those responses"},
